@@ -49,6 +49,8 @@ type propSpec struct {
 	gen    func(r *Rng) Case
 	oracle func(c Case, r *Rng) []string
 	rule   string
+	// traceFix adapts a generated case to what the correspondence check can trace (nil: unchanged)
+	traceFix func(c Case) Case
 }
 
 func nontrivial(c Case) bool { return len(c.Edges) >= 2 }
@@ -384,6 +386,31 @@ func main() {
 		fmt.Fprintln(os.Stderr, "unknown command", cmd)
 		os.Exit(2)
 	}
+}
+
+// readCases reads a JSON list of cases, or a violation file holding one case
+func readCases(path string) []Case {
+	b, err := os.ReadFile(path)
+	if err != nil {
+		panic(err)
+	}
+	var cs []Case
+	if json.Unmarshal(b, &cs) == nil && len(cs) > 0 {
+		return cs
+	}
+	var v Violation
+	if json.Unmarshal(b, &v) == nil && len(v.Case.Edges) > 0 {
+		return []Case{v.Case}
+	}
+	var idx []struct {
+		Case Case `json:"case"`
+	}
+	if json.Unmarshal(b, &idx) == nil {
+		for _, e := range idx {
+			cs = append(cs, e.Case)
+		}
+	}
+	return cs
 }
 
 var extraCommands = map[string]func(fs *flag.FlagSet, prop string, seed uint64, n int, out, file string) int{}
